@@ -68,6 +68,14 @@ def envelope_problems(data, request_version, request_decodable):
     if why:
         return [("response-not-ttlv", why)]
     tree = ttlv.parse(data)
+    # canonical: re-encoding the parsed tree with the independent encoder reproduces the bytes
+    # (Big Integers excepted: a longer sign extension is still the same number)
+    if not any(n[1] == ttlv.BIG_INTEGER for _, n in ttlv.walk(tree)):
+        again = ttlv.encode(tree)
+        if again != bytes(data):
+            i = next((k for k in range(min(len(again), len(data))) if again[k] != data[k]), min(len(again), len(data)))
+            bad.append(("response-not-canonical", "the independent encoder writes the same tree differently "
+                        "from byte %d on (%s vs %s)" % (i, bytes(data)[i:i + 12].hex(), again[i:i + 12].hex())))
     if tree[0] != T.RESPONSE_MESSAGE.value or tree[1] != ttlv.STRUCTURE:
         return [("not-a-response-message", "top-level tag %06x" % tree[0])]
     kids = tree[2]
@@ -156,6 +164,21 @@ def histories(version):
     add('derive_key', lambda: W.p_derive_key(['1']))
     add('sign', lambda: W.p_sign('10'))
     add('signature_verify', lambda: W.p_signature_verify('9'))
+    # unusual stored data coming back in responses: text of every length 6..10 (around the 8-byte
+    # alignment) in ASCII and non-ASCII, several instances, empty application data, long values
+    NAMES = ['abcdef', 'abcdefg', 'abcdefgh', 'abcdefghi', 'abcdefghij', 'é', 'ééé', 'éééé',
+             '日本語', '\U0001F511key', 'x' * 255]
+    add('register_unusual', lambda: W.p_register(W.pie_secret(b'\x00'), W.common_attrs(
+        names=NAMES, groups=['g' * n for n in (1, 7, 8, 9, 16)],
+        appinfo=[('ns' * n, 'd' * (9 - n)) for n in (1, 4, 8)])))
+    add('get_attributes_unusual', lambda: W.p_get_attributes('11'))
+    add('get_attribute_list_unusual', lambda: W.p_get_attribute_list('11'))
+    add('get_unusual', lambda: W.p_get('11'))
+    for nm in NAMES[:9]:
+        add('locate_unusual_%d' % len(nm.encode()), (lambda nm=nm: W.p_locate([W.attr(W.AT.NAME, nm)])))
+    add('locate_nothing', lambda: W.p_locate([W.attr(W.AT.NAME, 'no-such-name')]))
+    add('query_nothing', lambda: W.p_query([]))
+    add('get_attributes_none_present', lambda: W.p_get_attributes('11', ['Activation Date']))
     # error classes
     add('err_not_found', lambda: W.p_get('999'))
     add('err_permission', lambda: W.p_get('1'), user='bob')
